@@ -12,8 +12,9 @@
    them at the same places (mirrored in tools/c11.py; reb_particle_from_orbit_err is modelled in Orbit.v).
 
    Every numeric argument is in one of three states: not passed, passed with a NaN value, passed with a
-   non-NaN value.  C initialises each variable to NaN and tests !isnan(v): a NaN value is "not given".
-   Python initialises to None and tests `is not None`: a NaN value is "given". *)
+   non-NaN value.  C initialises each variable to NaN and tests !isnan(v): a NaN value would be "not given";
+   Python initialises to None and tests `is not None`: a NaN value would be "given".  Since /repo 369a765 both
+   reject an explicitly passed NaN up front (code 16), so the difference can no longer be observed. *)
 From Coq Require Import ZArith List Bool Lia ZifyBool.
 Import ListNotations.
 Open Scope Z_scope.
@@ -139,8 +140,16 @@ Definition decide_py (fl : flags) : decision :=
     Classical afp pe (py_anom fl)
   else Cartesian.
 
-Definition c_decide (g : args) : decision := decide_c (flags_of c_has g).
-Definition py_decide (g : args) : decision := decide_py (flags_of py_has g).
+(* since /repo 369a765 both front ends first reject any NaN that was passed explicitly (code 16):
+   C: every `x = va_arg(args,double)` sets nan_given when isnan(x), tested right after the token loop;
+   Python: `for _v in (m,x,...,iy,...): if _v is not None and _v != _v: raise ValueError`.  m and r included. *)
+Definition is_nan_arg (p : pres) : bool := match p with GivenNaN => true | _ => false end.
+Definition any_nan (g : args) : bool :=
+  existsb is_nan_arg [a_m g; a_r g; a_x g; a_y g; a_z g; a_vx g; a_vy g; a_vz g; a_a g; a_P g; a_e g; a_inc g; a_Omega g;
+                      a_omega g; a_pomega g; a_f g; a_M g; a_E g; a_l g; a_theta g; a_T g; a_h g; a_k g; a_ix g; a_iy g].
+
+Definition c_decide (g : args) : decision := if any_nan g then Reject 16 else decide_c (flags_of c_has g).
+Definition py_decide (g : args) : decision := if any_nan g then Reject 16 else decide_py (flags_of py_has g).
 
 (* ------------------------------------------------------------------ statements used by the theorems *)
 Definition not_nan (p : pres) : Prop := p <> GivenNaN.
